@@ -1,3 +1,1633 @@
-from vlib.progen import Chooser, RandChooser, HypChooser
-def gen_case(ch, shard=0):
-    raise NotImplementedError
+"""
+C11 "cpp" generator profile: format-tracking generator of FPy source text for the C++ backend.
+
+Built on the ideas of vlib.progen (Chooser-driven, type-directed, source text) with its own productions:
+every numeric value carries a *kind* -- the static format it was produced in
+
+    f32 f64                      binary32 / binary64 (any of the four hardware rounding modes)
+    s8 s16 s32 s64 u8 u16 u32 u64   two's-complement / unsigned integer formats (fp.SINTn / fp.UINTn, RTZ + WRAP)
+
+and an operation under an active context C only receives operands whose kind is *contained* in C's format;
+anything else is wrapped in `fp.round(...)` (an explicit rounding, performed identically by both sides).
+The C++ backend refuses every implicit lossy conversion, so without this almost nothing is accepted.
+
+`gen_case(ch)` returns a plain-data case: source, entry name, top-level context, arg types, entry rounding
+mode, inputs, feature tags.
+"""
+
+from __future__ import annotations
+
+import math
+import struct
+
+from vlib.progen import Chooser, HypChooser, RandChooser  # noqa: F401  (re-exported)
+
+FLOATS = ('f32', 'f64')
+INTS = ('u8', 's8', 'u16', 's16', 'u32', 's32', 'u64', 's64')          # ladder order
+RANGE = {
+    'u8': (0, 2**8 - 1), 's8': (-2**7, 2**7 - 1), 'u16': (0, 2**16 - 1), 's16': (-2**15, 2**15 - 1),
+    'u32': (0, 2**32 - 1), 's32': (-2**31, 2**31 - 1), 'u64': (0, 2**64 - 1), 's64': (-2**63, 2**63 - 1),
+}
+MAGBITS = {'u8': 8, 's8': 7, 'u16': 16, 's16': 15, 'u32': 32, 's32': 31, 'u64': 64, 's64': 63}
+RMS = ('RNE', 'RTZ', 'RTP', 'RTN')
+CTX_TEXT = {'s8': 'fp.SINT8', 's16': 'fp.SINT16', 's32': 'fp.SINT32', 's64': 'fp.SINT64',
+            'u8': 'fp.UINT8', 'u16': 'fp.UINT16', 'u32': 'fp.UINT32', 'u64': 'fp.UINT64',
+            'int': 'fp.INTEGER', 'real': 'fp.REAL'}
+
+
+def fits(a: str, b: str) -> bool:
+    """Is every value of kind `a` a value of kind `b` (the backend's ladder containment)?"""
+    if a == b:
+        return True
+    if a in FLOATS:
+        return a == 'f32' and b == 'f64'
+    if b in FLOATS:
+        return MAGBITS[a] <= (24 if b == 'f32' else 53)
+    la, ha = RANGE[a]
+    lb, hb = RANGE[b]
+    return lb <= la and ha <= hb
+
+
+def int_kind_of_range(lo, hi):
+    for k in INTS:
+        a, b = RANGE[k]
+        if a <= lo and hi <= b:
+            return k
+    return None
+
+
+def join(a, b):
+    """Smallest kind containing both, or None."""
+    if fits(a, b):
+        return b
+    if fits(b, a):
+        return a
+    if a in INTS and b in INTS:
+        return int_kind_of_range(min(RANGE[a][0], RANGE[b][0]), max(RANGE[a][1], RANGE[b][1]))
+    for k in FLOATS:
+        if fits(a, k) and fits(b, k):
+            return k
+    return None
+
+
+def lit_kind(text):
+    """Kind of the storage the backend gives a bare literal (by value)."""
+    v = float(text)
+    if v == int(v) and v >= 0 and not text.startswith('-'):
+        return int_kind_of_range(int(v), int(v))
+    return 'f32' if struct.unpack('<f', struct.pack('<f', v))[0] == v else 'f64'
+
+
+class Ctx:
+    def __init__(self, kind, rm=None):
+        self.kind = kind          # f32 f64 | int kinds | 'int' (INTEGER) | 'real'
+        self.rm = rm
+
+    @property
+    def text(self):
+        if self.kind == 'f32':
+            return f'fp.IEEEContext(8, 32, fp.RM.{self.rm})'
+        if self.kind == 'f64':
+            return f'fp.IEEEContext(11, 64, fp.RM.{self.rm})'
+        return CTX_TEXT[self.kind]
+
+    @property
+    def is_float(self):
+        return self.kind in FLOATS
+
+    @property
+    def is_int(self):
+        return self.kind in INTS
+
+    def __repr__(self):
+        return f'Ctx({self.kind},{self.rm})'
+
+
+# value types
+class Sc:
+    def __init__(self, kind):
+        self.kind = kind
+
+    def key(self):
+        return ('S', self.kind)
+
+
+class Bo:
+    def key(self):
+        return ('B',)
+
+
+class Li:
+    def __init__(self, elem, lb, exact=False):
+        self.elem = elem            # kind
+        self.lb = lb                # known lower bound on the length
+        self.exact = exact          # length known exactly (pinned / literal)
+
+    def key(self):
+        return ('L', self.elem)
+
+
+class LL:
+    def __init__(self, elem, lb, inner_lb):
+        self.elem = elem
+        self.lb = lb
+        self.inner_lb = inner_lb
+
+    def key(self):
+        return ('LL', self.elem)
+
+
+class Tu:
+    def __init__(self, kinds):
+        self.kinds = list(kinds)    # scalar kinds
+
+    def key(self):
+        return ('T', tuple(self.kinds))
+
+
+DYADIC_LITS = ['0', '1', '2', '3', '5', '7', '10', '100', '0.5', '1.5', '0.25', '2.75', '0.125', '255', '3.25',
+               '8388608.5', '4194304.25']
+# 2**23 + 0.5 and 2**22 + 0.25 need 25 significand bits: binary64 storage, one bit more than binary32 holds
+# (a decimal literal reaches the backend through its shortest repr, so only short exact decimals are usable)
+INT_LITS = ['0', '1', '2', '3', '5', '7', '10', '100', '255']
+NONDYADIC_LITS = ['0.1', '0.3', '1e-3', '1e10', '3.3', '1e-40', '1e39', '0.7', '1e-320', '1.7976931348623157e308']
+NONDYADIC_F32 = ['0.1', '0.3', '1e-3', '3.3', '1e-40', '1e39', '0.7', '1e-46', '3.4028235e38']
+BIG_INT_LITS = ['65535', '65536', '16777216', '2147483647', '4294967295', '1000000']
+
+
+class Helper:
+    def __init__(self, name, params, ret, own_ctx, assumed, mutates, minlen, kind):
+        self.name = name
+        self.params = params        # [(name, VType)]
+        self.ret = ret              # VType
+        self.own_ctx = own_ctx      # Ctx | None
+        self.assumed = assumed      # Ctx the body was generated under
+        self.mutates = mutates      # set of param names whose cells the body writes
+        self.minlen = minlen
+        self.kind = kind
+
+
+class Fn:
+    def __init__(self, name, is_main):
+        self.name = name
+        self.is_main = is_main
+        self.env = {}               # name -> VType
+        self.counter = 0
+        self.protected = set()
+        self.must_observe = []      # names to put in the final return
+        self.alias_groups = {}      # list name -> group id (names that may denote the same cells)
+        self.next_group = 0
+        self.ret_shape = None
+
+    def fresh(self, prefix):
+        self.counter += 1
+        return f'{prefix}{self.counter}'
+
+
+class Gen:
+    def __init__(self, ch: Chooser, shard=0):
+        self.ch = ch
+        self.features = set()
+        self.helpers = []
+        self.lines = []
+        self.shard = shard
+        # profile knobs (vary per program)
+        self.p_int_ctx = ch.choice([0.05, 0.2, 0.4, 0.6])
+        self.p_lists = ch.choice([0.0, 0.3, 0.6, 0.8])
+        self.max_stmts = ch.choice([5, 8, 11])
+        self.expr_depth = ch.choice([1, 2, 2, 3])
+
+    # ------------------------------------------------------------------ contexts
+    def float_ctx(self, prefer=None):
+        ch = self.ch
+        kind = prefer or ch.choice(['f32', 'f32', 'f64', 'f64', 'f64'])
+        return Ctx(kind, ch.choice(RMS))
+
+    def some_ctx(self, cur: Ctx):
+        ch = self.ch
+        if ch.bool(self.p_int_ctx):
+            k = ch.weighted([(3, 's8'), (4, 's16'), (5, 's32'), (3, 's64'), (3, 'u8'), (3, 'u16'), (3, 'u32'), (2, 'u64'),
+                             (3, 'int'), (5, 'real')])
+            return Ctx(k)
+        c = self.float_ctx()
+        if ch.bool(0.35) and cur.is_float:
+            # same width, different mode: the classic save/restore shape
+            c = Ctx(cur.kind, ch.choice([r for r in RMS if r != cur.rm]))
+        return c
+
+    # ------------------------------------------------------------------ helpers for env
+    def vars_of(self, fn, pred):
+        return sorted(n for n, t in fn.env.items() if pred(t))
+
+    def scalars(self, fn, okkind=None):
+        return self.vars_of(fn, lambda t: isinstance(t, Sc) and (okkind is None or okkind(t.kind)))
+
+    def lists(self, fn, pred=None):
+        return self.vars_of(fn, lambda t: isinstance(t, Li) and (pred is None or pred(t)))
+
+    # ------------------------------------------------------------------ numeric expressions
+    def coerce(self, text, kind, C: Ctx):
+        """`text` (of `kind`) as an operand of an operation dispatched under C."""
+        if C.kind == 'real' or C.kind == 'int':
+            return text, kind
+        if fits(kind, C.kind):
+            return text, kind
+        self.features.add('explicit-round')
+        if C.is_int and kind in FLOATS:
+            self.features.add('float-to-int-round')
+        return f'fp.round({text})', C.kind
+
+    def literal(self, C: Ctx):
+        """(text, kind) of a constant usable under C."""
+        ch = self.ch
+        if C.kind == 's8':
+            return None
+        if C.is_int or C.kind in ('int', 'real'):
+            t = ch.choice(INT_LITS if C.kind != 'real' else INT_LITS + ['0.5', '2'])
+            if C.kind == 'real' and t == '0.5':
+                return None
+            k = lit_kind(t)
+            if C.is_int and not fits(k, C.kind):
+                return None
+            return t, k
+        r = ch.int(0, 99)
+        if r < 55:
+            t = ch.choice(DYADIC_LITS)
+            return t, lit_kind(t)
+        if r < 62:
+            return '-0.0', 'f32'
+        if r < 70:
+            # an integer literal keeps the storage of its *value* even when rounded, so only those the context holds exactly
+            t = ch.choice(BIG_INT_LITS)
+            k = lit_kind(t)
+            if fits(k, C.kind):
+                return t, k
+            return None
+        t = ch.choice(NONDYADIC_LITS if C.kind == 'f64' else NONDYADIC_F32)
+        self.features.add('rounded-literal')
+        return f'fp.round({t})', C.kind
+
+    def atom(self, fn, C: Ctx):
+        """A variable / literal / element read: (text, kind) or None."""
+        ch = self.ch
+        opts = []
+        vs = self.scalars(fn)
+        if vs:
+            opts.append((10, 'var'))
+        ls = self.lists(fn, lambda t: t.lb > 0)
+        if ls:
+            opts.append((4, 'index'))
+        lls = self.vars_of(fn, lambda t: isinstance(t, LL) and t.lb > 0 and t.inner_lb > 0)
+        if lls:
+            opts.append((2, 'index2'))
+        tus = self.vars_of(fn, lambda t: isinstance(t, Tu))
+        if tus:
+            opts.append((2, 'fst'))
+        opts.append((4, 'lit'))
+        k = ch.weighted(opts)
+        if k == 'var':
+            # prefer variables that fit the context without rounding
+            good = [v for v in vs if C.kind in ('real', 'int') or fits(fn.env[v].kind, C.kind)]
+            v = ch.choice(good) if good and ch.bool(0.7) else ch.choice(vs)
+            return v, fn.env[v].kind
+        if k == 'index':
+            l = ch.choice(ls)
+            return f'{l}[{ch.int(0, fn.env[l].lb - 1)}]', fn.env[l].elem
+        if k == 'index2':
+            l = ch.choice(lls)
+            t = fn.env[l]
+            return f'{l}[{ch.int(0, t.lb - 1)}][{ch.int(0, t.inner_lb - 1)}]', t.elem
+        if k == 'fst':
+            t = ch.choice(tus)
+            i = ch.int(0, 1)
+            return f'fp.{"fst" if i == 0 else "snd"}({t})', fn.env[t].kinds[i]
+        return self.literal(C)
+
+    def usable_in(self, kind, C: Ctx):
+        """May a value of `kind` be an operand under exact / unbounded contexts?"""
+        if C.kind == 'int':
+            return kind in INTS and MAGBITS[kind] <= 31 or kind in ('u8', 's8', 'u16', 's16', 'u32', 's32')
+        if C.kind == 'real':
+            return kind in INTS and MAGBITS[kind] <= 32
+        return True
+
+    def num(self, fn, C: Ctx, d: int):
+        """A numeric expression evaluated under C: (text, kind).  Always succeeds."""
+        for _ in range(6):
+            r = self._num(fn, C, d)
+            if r is not None and r[1] is not None:
+                return r
+        # fallback: something always valid
+        if C.kind == 's8':
+            vs = self.scalars(fn, lambda k: k == 's8')
+            if vs:
+                v = self.ch.choice(vs)
+                return v, 's8'
+            vs = self.scalars(fn)
+            if vs:
+                v = self.ch.choice(vs)
+                return f'fp.round({v})', 's8'
+        if C.kind in ('int', 'real'):
+            return '1', 'u8'
+        return ('1', 'u8') if C.kind != 's8' else ('fp.round(1)', 'u8')
+
+    def operand(self, fn, C, d):
+        t, k = self.num(fn, C, d)
+        return self.coerce(t, k, C)
+
+    def _num(self, fn, C: Ctx, d: int):
+        ch = self.ch
+        if C.kind in ('int', 'real'):
+            return self._num_exact(fn, C, d)
+        if d <= 0:
+            return self.atom(fn, C)
+        if C.is_int:
+            opts = [(30, 'bin'), (10, 'atom'), (4, 'neg'), (3, 'abs'), (5, 'round'), (4, 'minmax'), (3, 'ifexp'), (3, 'div'), (2, 'len'),
+                    (2, 'call')]
+        else:
+            opts = [(30, 'bin'), (8, 'atom'), (4, 'neg'), (3, 'abs'), (5, 'round'), (4, 'minmax'), (3, 'ifexp'), (4, 'sqrt'), (4, 'fma'),
+                    (5, 'rint'), (3, 'copysign'), (2, 'fdim'), (2, 'logb'), (3, 'sum'), (2, 'lminmax'), (1, 'len'), (1, 'cast'), (4, 'call')]
+        k = ch.weighted(opts)
+        kc = C.kind
+        if k == 'atom':
+            return self.atom(fn, C)
+        if k == 'bin':
+            op = ch.choice(['+', '-', '*'] if C.is_int else ['+', '-', '*', '/', '+', '*'])
+            a, _ = self.operand(fn, C, d - 1)
+            b, _ = self.operand(fn, C, d - 1)
+            return f'({a} {op} {b})', kc
+        if k == 'div':
+            # integer division: positive literal divisor only (no trap, no division by zero)
+            if kc == 's8':
+                return None
+            a, _ = self.operand(fn, C, d - 1)
+            return f'({a} / {ch.choice(["1", "2", "3", "7", "10"])})', kc
+        if k == 'neg':
+            a, _ = self.operand(fn, C, d - 1)
+            return f'(-{a})', kc
+        if k == 'abs':
+            if kc in ('u32', 'u64'):
+                return None          # std::abs has no unsigned overload; exercised separately
+            a, _ = self.operand(fn, C, d - 1)
+            return f'abs({a})', kc
+        if k == 'round':
+            t, kk = self.num(fn, C, d - 1)
+            if C.is_int and kk in FLOATS:
+                self.features.add('float-to-int-round')
+            return f'fp.round({t})', kc
+        if k == 'cast':
+            # exact by construction: a narrower kind under a wider context
+            vs = self.scalars(fn, lambda kk: kk != kc and fits(kk, kc))
+            if not vs:
+                return None
+            return f'fp.cast({ch.choice(vs)})', kc
+        if k == 'minmax':
+            f = ch.choice(['min', 'max'])
+            n = ch.int(2, 3)
+            args = [self.operand(fn, C, d - 1)[0] for _ in range(n)]
+            self.features.add('minmax')
+            return f'{f}({", ".join(args)})', kc
+        if k == 'ifexp':
+            a, ka = self.operand(fn, C, d - 1)
+            b, kb = self.operand(fn, C, d - 1)
+            c = self.boolean(fn, C, d - 1)
+            return f'({a} if {c} else {b})', join(ka, kb)
+        if k == 'sqrt':
+            a, _ = self.operand(fn, C, d - 1)
+            return f'fp.sqrt({a})', kc
+        if k == 'fma':
+            a, _ = self.operand(fn, C, d - 1)
+            b, _ = self.operand(fn, C, d - 1)
+            c, _ = self.operand(fn, C, d - 1)
+            self.features.add('fma')
+            return f'fp.fma({a}, {b}, {c})', kc
+        if k == 'rint':
+            a, _ = self.operand(fn, C, d - 1)
+            return f'fp.{ch.choice(["floor", "ceil", "trunc", "nearbyint", "roundint"])}({a})', kc
+        if k == 'copysign':
+            a, _ = self.operand(fn, C, d - 1)
+            b, _ = self.operand(fn, C, d - 1)
+            return f'fp.copysign({a}, {b})', kc
+        if k == 'fdim':
+            a, _ = self.operand(fn, C, d - 1)
+            b, _ = self.operand(fn, C, d - 1)
+            return f'fp.fdim({a}, {b})', kc
+        if k == 'logb':
+            a, _ = self.operand(fn, C, d - 1)
+            return f'fp.logb({a})', kc
+        if k == 'sum':
+            ls = self.lists(fn, lambda t: fits(t.elem, kc))
+            if not ls:
+                return None
+            self.features.add('sum')
+            return f'sum({ch.choice(ls)})', kc
+        if k == 'lminmax':
+            ls = self.lists(fn, lambda t: t.lb >= 1 and fits(t.elem, kc))
+            if not ls:
+                return None
+            l = ch.choice(ls)
+            self.features.add('list-minmax')
+            return f'{ch.choice(["min", "max"])}({l})', fn.env[l].elem
+        if k == 'len':
+            ls = self.lists(fn)
+            if not ls:
+                return None
+            l = ch.choice(ls)
+            self.features.add('len')
+            # a pinned length is a known small constant; a free one is an int64
+            kk = 'u8' if fn.env[l].exact else 's64'
+            return f'len({l})', kk
+        if k == 'call':
+            return self.call_scalar(fn, C, d)
+        raise ValueError(k)
+
+    def _num_exact(self, fn, C: Ctx, d: int):
+        """Expressions under REAL / INTEGER: integer kinds with range tracking; every exact result must
+        fit a machine integer (REAL) / stay far inside int64 (INTEGER)."""
+        ch = self.ch
+        vs = self.scalars(fn, lambda k: self.usable_in(k, C))
+        fl = self.scalars(fn, lambda k: k in FLOATS) if C.kind == 'real' else []
+
+        def leaf():
+            if vs and ch.bool(0.8):
+                v = ch.choice(vs)
+                return v, fn.env[v].kind
+            t = ch.choice(INT_LITS)
+            return t, lit_kind(t)
+        if d <= 0:
+            return leaf()
+        opts = [(10, 'bin'), (3, 'leaf'), (2, 'neg'), (2, 'abs'), (2, 'minmax')]
+        if fl:
+            opts += [(3, 'fneg'), (2, 'fminmax')]
+        k = ch.weighted(opts)
+        if k == 'leaf':
+            return leaf()
+        if k == 'fneg':
+            v = ch.choice(fl)
+            self.features.add('real-float-op')
+            return f'{ch.choice(["(-", "abs("])}{v})', fn.env[v].kind
+        if k == 'fminmax':
+            a, b = ch.choice(fl), ch.choice(fl)
+            self.features.add('real-float-op')
+            return f'{ch.choice(["min", "max"])}({a}, {b})', join(fn.env[a].kind, fn.env[b].kind)
+        ra = self._num_exact(fn, C, d - 1) if ch.bool(0.4) else leaf()
+        if ra is None or ra[1] in FLOATS:
+            return None
+        a, ka = ra
+        la, ha = RANGE[ka]
+        if k == 'neg':
+            r = int_kind_of_range(-ha, -la)
+            return (f'(-{a})', r) if self._exact_ok(r, C) else None
+        if k == 'abs':
+            r = int_kind_of_range(0, max(abs(la), abs(ha)))
+            return (f'abs({a})', r) if self._exact_ok(r, C) else None
+        rb = self._num_exact(fn, C, d - 1) if ch.bool(0.3) else leaf()
+        if rb is None or rb[1] in FLOATS:
+            return None
+        b, kb = rb
+        lb, hb = RANGE[kb]
+        if k == 'minmax':
+            f = ch.choice(['min', 'max'])
+            r = int_kind_of_range(min(la, lb), max(ha, hb))
+            self.features.add('minmax')
+            return (f'{f}({a}, {b})', r) if self._exact_ok(r, C) else None
+        op = ch.choice(['+', '-', '*'])
+        if op == '+':
+            lo, hi = la + lb, ha + hb
+        elif op == '-':
+            lo, hi = la - hb, ha - lb
+        else:
+            c = [la * lb, la * hb, ha * lb, ha * hb]
+            lo, hi = min(c), max(c)
+        r = int_kind_of_range(lo, hi)
+        if not self._exact_ok(r, C):
+            return None
+        self.features.add('exact-int-arith' if C.kind == 'real' else 'integer-ctx-arith')
+        # under INTEGER the result is an unbounded-integer value held in int64
+        return f'({a} {op} {b})', (r if C.kind == 'real' else 's64' if MAGBITS[r] > 31 else r)
+
+    @staticmethod
+    def _exact_ok(r, C):
+        if r is None:
+            return False
+        return True
+
+    # ------------------------------------------------------------------ calls
+    def callable_helpers(self, fn, C, pred):
+        if not fn.is_main:
+            return []
+        out = []
+        for h in self.helpers:
+            if not pred(h):
+                continue
+            if h.own_ctx is None and h.assumed.kind != C.kind:
+                continue
+            out.append(h)
+        return out
+
+    def call_text(self, fn, C, h: Helper, d):
+        """Text of a call to h under C, or None if no suitable arguments exist."""
+        ch = self.ch
+        args = []
+        passed_lists = []
+        for pn, pt in h.params:
+            if isinstance(pt, Sc):
+                # argument kind must be contained in the parameter kind the body was generated for
+                cands = self.scalars(fn, lambda k: fits(k, pt.kind))
+                if cands and ch.bool(0.7):
+                    args.append(ch.choice(cands))
+                else:
+                    t, k = self.num(fn, C, max(0, d - 1))
+                    if not fits(k, pt.kind):
+                        if C.kind == pt.kind:
+                            t = f'fp.round({t})'
+                        else:
+                            return None
+                    args.append(t)
+            elif isinstance(pt, Li):
+                need = h.minlen.get(pn, 0)
+                cands = self.lists(fn, lambda t: t.elem == pt.elem and t.lb >= need)
+                if not cands:
+                    return None
+                l = ch.choice(cands)
+                args.append(l)
+                passed_lists.append((pn, l))
+            elif isinstance(pt, LL):
+                cands = self.vars_of(fn, lambda t: isinstance(t, LL) and t.elem == pt.elem and t.lb >= pt.lb and t.inner_lb >= pt.inner_lb)
+                if not cands:
+                    return None
+                l = ch.choice(cands)
+                args.append(l)
+                passed_lists.append((pn, l))
+            else:
+                return None
+        self.features.add('helper-call')
+        self.features.add('helper-with-own-ctx' if h.own_ctx is not None else 'helper-inherits-ctx')
+        for pn, l in passed_lists:
+            if pn in h.mutates:
+                self.features.add('callee-writes-list')
+                g = fn.alias_groups.get(l)
+                if g is not None:
+                    others = [n for n, gg in fn.alias_groups.items() if gg == g and n != l and n in fn.env]
+                    if others:
+                        self.features.add('callee-writes-aliased-list')
+                        for o in others[:2]:
+                            if o not in fn.must_observe:
+                                fn.must_observe.append(o)
+                if l not in fn.must_observe:
+                    fn.must_observe.append(l)
+        return f'{h.name}({", ".join(args)})'
+
+    def call_scalar(self, fn, C, d):
+        hs = self.callable_helpers(fn, C, lambda h: isinstance(h.ret, Sc))
+        if not hs:
+            return None
+        h = self.ch.choice(hs)
+        t = self.call_text(fn, C, h, d)
+        if t is None:
+            return None
+        return t, h.ret.kind
+
+    # ------------------------------------------------------------------ booleans
+    def boolean(self, fn, C: Ctx, d: int):
+        ch = self.ch
+        vs = self.vars_of(fn, lambda t: isinstance(t, Bo))
+        if d <= 0 and vs and ch.bool(0.4):
+            return ch.choice(vs)
+        k = ch.weighted([(12, 'cmp'), (2, 'chain'), (3, 'and'), (3, 'or'), (2, 'not'), (2, 'var'), (4, 'pred'), (4, 'anyall')]) if d > 0 else 'cmp'
+        if k == 'cmp' or k == 'chain':
+            n = 3 if k == 'chain' else 2
+            parts = []
+            kinds = []
+            for _ in range(n):
+                t, kk = self.num(fn, C, max(0, d - 1))
+                # comparisons need a common storage: avoid 64-bit integers against floats / mixed signedness at 64 bits
+                for prev in kinds:
+                    if join(prev, kk) is None:
+                        t, kk = self.coerce_for_compare(t, kk, C)
+                        break
+                parts.append(t)
+                kinds.append(kk)
+            for i in range(len(kinds)):
+                for j in range(i):
+                    if join(kinds[i], kinds[j]) is None:
+                        return 'True'
+            ops = [ch.choice(['<', '<=', '>', '>=', '==', '!=']) for _ in range(n - 1)]
+            if n == 3:
+                self.features.add('chained-compare')
+            s = parts[0]
+            for o, p in zip(ops, parts[1:]):
+                s += f' {o} {p}'
+            return f'({s})'
+        if k == 'and':
+            return f'({self.boolean(fn, C, d - 1)} and {self.boolean(fn, C, d - 1)})'
+        if k == 'or':
+            return f'({self.boolean(fn, C, d - 1)} or {self.boolean(fn, C, d - 1)})'
+        if k == 'not':
+            return f'(not {self.boolean(fn, C, d - 1)})'
+        if k == 'var':
+            return ch.choice(vs) if vs else 'True'
+        if k == 'pred':
+            fl = self.scalars(fn, lambda kk: kk in FLOATS)
+            if not fl:
+                return 'False'
+            self.features.add('fp-predicate')
+            return f'fp.{ch.choice(["isnan", "isinf", "isfinite", "signbit", "signbit"])}({ch.choice(fl)})'
+        if k == 'anyall':
+            ls = self.lists(fn)
+            if not ls:
+                return 'True'
+            l = ch.choice(ls)
+            v = fn.fresh('q')
+            fn.env[v] = Sc(fn.env[l].elem)
+            t, kk = self.num(fn, C, 0)
+            if join(kk, fn.env[l].elem) is None:
+                t = '0' if C.kind != 's8' else v
+            del fn.env[v]
+            self.features.add('any-all')
+            return f'{ch.choice(["any", "all"])}([{v} {ch.choice(["<", ">=", "=="])} {t} for {v} in {l}])'
+        raise ValueError(k)
+
+    def coerce_for_compare(self, t, k, C):
+        if C.kind in ('real', 'int'):
+            return t, k
+        return f'fp.round({t})', C.kind
+
+    # ------------------------------------------------------------------ list expressions
+    def list_expr(self, fn, C: Ctx, d: int):
+        """(text, Li) of a fresh or aliased flat list, evaluated under C; or None."""
+        ch = self.ch
+        ls = self.lists(fn)
+        opts = [(6, 'literal')]
+        if C.kind not in ('int',):
+            opts.append((3, 'comp-range'))
+        if ls:
+            opts += [(4, 'alias'), (5, 'comp'), (2, 'comp-zip'), (2, 'comp-enum'), (3, 'slice')]
+        hs = self.callable_helpers(fn, C, lambda h: isinstance(h.ret, Li))
+        if hs:
+            opts.append((4, 'call'))
+        k = ch.weighted(opts)
+        if C.kind in ('real', 'int') and k in ('comp', 'comp-zip', 'comp-enum', 'comp-range', 'literal'):
+            k = 'alias' if ls else None
+            if k is None:
+                return None
+        if k == 'literal':
+            n = ch.int(1, 4)
+            elems = [self.operand(fn, C, max(0, d - 1)) for _ in range(n)]
+            kind = elems[0][1]
+            for _, kk in elems[1:]:
+                kind = join(kind, kk)
+                if kind is None:
+                    return None
+            # make the element format exactly the context's format: at least one element is an operation result
+            if kind != C.kind:
+                t, _ = self.operand(fn, C, 0)
+                elems[0] = (f'({t} + {self.operand(fn, C, 0)[0]})' if C.kind != 's8' else f'fp.round({t})', C.kind)
+                kind = C.kind
+            return '[' + ', '.join(t for t, _ in elems) + ']', Li(kind, n, True)
+        if k == 'alias':
+            l = ch.choice(ls)
+            self.features.add('list-alias')
+            return l, Li(fn.env[l].elem, fn.env[l].lb, fn.env[l].exact), l
+        if k == 'slice':
+            l = ch.choice(ls)
+            lb = fn.env[l].lb
+            lo = ch.int(0, lb)
+            hi = ch.int(lo, lb)
+            form = ch.int(0, 3)
+            self.features.add('slice')
+            if form == 0:
+                return f'{l}[{lo}:{hi}]', Li(fn.env[l].elem, hi - lo, True)
+            if form == 1:
+                return f'{l}[{lo}:]', Li(fn.env[l].elem, lb - lo, fn.env[l].exact)
+            if form == 2:
+                return f'{l}[:{hi}]', Li(fn.env[l].elem, hi, True)
+            return f'{l}[:]', Li(fn.env[l].elem, lb, fn.env[l].exact)
+        if k == 'call':
+            h = ch.choice(hs)
+            t = self.call_text(fn, C, h, d)
+            if t is None:
+                return None
+            return t, Li(h.ret.elem, h.ret.lb, False)
+        v = fn.fresh('e')
+        self.features.add('comprehension')
+        if k == 'comp':
+            l = ch.choice(ls)
+            fn.env[v] = Sc(fn.env[l].elem)
+            body, kk = self.elem_body(fn, C, d, v)
+            del fn.env[v]
+            return f'[{body} for {v} in {l}]', Li(kk, fn.env[l].lb, fn.env[l].exact)
+        if k == 'comp-range':
+            n = ch.int(0, 4)
+            fn.env[v] = Sc('u8' if n > 0 else 's64')       # an empty range gets the unconstrained integer format
+            body, kk = self.elem_body(fn, C, d, v)
+            del fn.env[v]
+            self.features.add('range')
+            form = ch.int(0, 2) if n > 0 else 0
+            if form == 0:
+                return f'[{body} for {v} in range({n})]', Li(kk, n, True)
+            if form == 1:
+                return f'[{body} for {v} in range(1, {n + 1})]', Li(kk, n, True)
+            return f'[{body} for {v} in range(0, {2 * n}, 2)]', Li(kk, n, True)
+        if k == 'comp-zip':
+            l1 = ch.choice(ls)
+            same = [l for l in ls if fn.env[l].exact and fn.env[l1].exact and fn.env[l].lb == fn.env[l1].lb]
+            l2 = ch.choice(same) if same else l1
+            w = fn.fresh('e')
+            fn.env[v] = Sc(fn.env[l1].elem)
+            fn.env[w] = Sc(fn.env[l2].elem)
+            body, kk = self.elem_body(fn, C, d, v, w)
+            del fn.env[v]
+            del fn.env[w]
+            self.features.add('zip')
+            return f'[{body} for {v}, {w} in zip({l1}, {l2})]', Li(kk, fn.env[l1].lb, fn.env[l1].exact)
+        if k == 'comp-enum':
+            l = ch.choice(ls)
+            w = fn.fresh('e')
+            fn.env[v] = Sc('u8' if fn.env[l].exact else 's64')
+            fn.env[w] = Sc(fn.env[l].elem)
+            body, kk = self.elem_body(fn, C, d, w, v if fn.env[l].exact else None)
+            del fn.env[v]
+            del fn.env[w]
+            self.features.add('enumerate')
+            return f'[{body} for {v}, {w} in enumerate({l})]', Li(kk, fn.env[l].lb, fn.env[l].exact)
+        raise ValueError(k)
+
+    def elem_body(self, fn, C, d, *names):
+        """An element expression mentioning the comprehension variables, of kind exactly C.kind."""
+        ch = self.ch
+        names = [n for n in names if n is not None]
+        a, _ = self.coerce(names[0], fn.env[names[0]].kind, C)
+        if len(names) > 1 and ch.bool(0.7):
+            b, _ = self.coerce(names[1], fn.env[names[1]].kind, C)
+        else:
+            b, _ = self.operand(fn, C, max(0, d - 1))
+        op = ch.choice(['+', '*', '-'])
+        if ch.bool(0.5):
+            a, b = b, a
+        return f'({a} {op} {b})', C.kind
+
+    # ------------------------------------------------------------------ statements
+    def block(self, fn, C, ind, n, depth, out, in_loop=False, in_with=0):
+        n0 = len(out)
+        for _ in range(n):
+            if self.stmt(fn, C, ind, depth, out, in_loop, in_with):
+                return True
+        if len(out) == n0:
+            out.append(f'{ind}pass')
+        return False
+
+    def snapshot(self, fn):
+        return (dict(fn.env), set(fn.protected), dict(fn.alias_groups))
+
+    def restore(self, fn, snap):
+        fn.env = dict(snap[0])
+        fn.protected = set(snap[1])
+        # alias groups only grow (conservative)
+
+    def bind(self, fn, name, vt, alias_of=None):
+        fn.env[name] = vt
+        if isinstance(vt, (Li, LL)):
+            if alias_of is not None:
+                g = fn.alias_groups.get(alias_of)
+                if g is None:
+                    g = fn.next_group
+                    fn.next_group += 1
+                    fn.alias_groups[alias_of] = g
+                fn.alias_groups[name] = g
+            else:
+                fn.alias_groups.pop(name, None)
+
+    def stmt(self, fn, C: Ctx, ind, depth, out, in_loop, in_with):
+        ch = self.ch
+        ed = self.expr_depth
+        lists_on = ch.bool(self.p_lists) or bool(self.lists(fn))
+        opts = [(26, 'assign'), (7, 'reassign'), (5, 'aug'), (5, 'assignB')]
+        if lists_on and C.kind != 'int':
+            opts += [(9, 'assignL'), (8, 'store'), (3, 'nested'), (3, 'store2')]
+        opts += [(3, 'tuple'), (2, 'untuple')]
+        if depth > 0:
+            opts += [(8, 'if'), (4, 'if1'), (8, 'for'), (14, 'with'), (3, 'while')]
+        if fn.is_main and self.helpers:
+            opts.append((8, 'callstmt'))
+            if depth > 0 and any(h.params and isinstance(h.params[0][1], (Li, LL)) for h in self.helpers):
+                opts.append((14, 'alias-call'))
+        opts.append((1, 'assert'))
+        if (in_loop or in_with or depth < 2) and depth < 3:
+            opts.append((3, 'return'))
+        k = ch.weighted(opts)
+        if k == 'assign':
+            v = fn.fresh('v')
+            t, kk = self.num(fn, C, ed)
+            if kk is None:
+                return False
+            out.append(f'{ind}{v} = {t}')
+            fn.env[v] = Sc(kk)
+        elif k == 'reassign' or k == 'aug':
+            if C.kind in ('real', 'int'):
+                return False
+            vs = [v for v in self.scalars(fn, lambda kk: kk == C.kind) if v not in fn.protected and not v.startswith(('a', 'p'))]
+            if not vs:
+                return False
+            v = ch.choice(vs)
+            t, _ = self.operand(fn, C, ed - 1)
+            if k == 'aug':
+                out.append(f'{ind}{v} {ch.choice(["+=", "-=", "*="])} {t}')
+                self.features.add('augassign')
+            else:
+                # an operation result: its kind is exactly the context's
+                u, _ = self.operand(fn, C, 0)
+                out.append(f'{ind}{v} = ({t} {ch.choice(["+", "*", "-"])} {u})')
+                self.features.add('reassign')
+        elif k == 'assignB':
+            v = fn.fresh('b')
+            out.append(f'{ind}{v} = {self.boolean(fn, C, ed - 1)}')
+            fn.env[v] = Bo()
+        elif k == 'assignL':
+            r = self.list_expr(fn, C, ed - 1)
+            if r is None:
+                return False
+            v = fn.fresh('xs')
+            out.append(f'{ind}{v} = {r[0]}')
+            self.bind(fn, v, r[1], alias_of=r[2] if len(r) > 2 else None)
+        elif k == 'store':
+            ls = self.lists(fn, lambda t: t.lb > 0)
+            if not ls:
+                return False
+            l = ch.choice(ls)
+            ek = fn.env[l].elem
+            if C.kind == ek:
+                t, _ = self.operand(fn, C, ed - 1)
+            else:
+                cands = self.scalars(fn, lambda kk: fits(kk, ek))
+                if not cands:
+                    return False
+                t = ch.choice(cands)
+            out.append(f'{ind}{l}[{ch.int(0, fn.env[l].lb - 1)}] = {t}')
+            self.features.add('list-store')
+            if fn.alias_groups.get(l) is not None:
+                self.features.add('store-through-alias')
+                for o in [n for n, g in fn.alias_groups.items() if g == fn.alias_groups[l] and n in fn.env][:3]:
+                    if o not in fn.must_observe:
+                        fn.must_observe.append(o)
+        elif k == 'nested':
+            ls = self.lists(fn)
+            if not ls:
+                return False
+            a = ch.choice(ls)
+            same = [l for l in ls if fn.env[l].elem == fn.env[a].elem]
+            n = ch.int(1, 3)
+            rows = [ch.choice(same) if ch.bool(0.7) else a for _ in range(n)]
+            if ch.bool(0.3):
+                rows[ch.int(0, n - 1)] = f'{a}[:]'
+            v = fn.fresh('xss')
+            out.append(f'{ind}{v} = [{", ".join(rows)}]')
+            inner = min(fn.env[r.split('[')[0]].lb for r in rows)
+            fn.env[v] = LL(fn.env[a].elem, n, inner)
+            # every named row now has a second referrer
+            g = fn.next_group
+            fn.next_group += 1
+            for r in rows:
+                if '[' not in r:
+                    gg = fn.alias_groups.get(r)
+                    if gg is None:
+                        fn.alias_groups[r] = g
+                    else:
+                        g = gg
+            fn.alias_groups[v] = g
+            self.features.add('nested-list')
+            if len(set(rows)) < len(rows):
+                self.features.add('nested-list-shared-rows')
+        elif k == 'store2':
+            lls = self.vars_of(fn, lambda t: isinstance(t, LL) and t.lb > 0 and t.inner_lb > 0)
+            if not lls:
+                return False
+            l = ch.choice(lls)
+            t0 = fn.env[l]
+            ek = t0.elem
+            if C.kind == ek:
+                t, _ = self.operand(fn, C, ed - 1)
+            else:
+                cands = self.scalars(fn, lambda kk: fits(kk, ek))
+                if not cands:
+                    return False
+                t = ch.choice(cands)
+            if ch.bool(0.25):
+                # replace a whole row
+                rows = self.lists(fn, lambda tt: tt.elem == ek and tt.lb >= t0.inner_lb)
+                if rows:
+                    out.append(f'{ind}{l}[{ch.int(0, t0.lb - 1)}] = {ch.choice(rows)}')
+                    self.features.add('row-replaced')
+                    return False
+            out.append(f'{ind}{l}[{ch.int(0, t0.lb - 1)}][{ch.int(0, t0.inner_lb - 1)}] = {t}')
+            self.features.add('nested-store')
+            g = fn.alias_groups.get(l)
+            for o in [n for n, gg in fn.alias_groups.items() if gg == g and n in fn.env][:3]:
+                if o not in fn.must_observe:
+                    fn.must_observe.append(o)
+        elif k == 'tuple':
+            v = fn.fresh('t')
+            a, ka = self.num(fn, C, ed - 1)
+            b, kb = self.num(fn, C, ed - 1)
+            if ka is None or kb is None:
+                return False
+            out.append(f'{ind}{v} = ({a}, {b})')
+            fn.env[v] = Tu([ka, kb])
+            self.features.add('tuple')
+        elif k == 'untuple':
+            tus = self.vars_of(fn, lambda t: isinstance(t, Tu))
+            if not tus:
+                return False
+            t = ch.choice(tus)
+            a, b = fn.fresh('v'), fn.fresh('v')
+            out.append(f'{ind}{a}, {b} = {t}')
+            fn.env[a] = Sc(fn.env[t].kinds[0])
+            fn.env[b] = Sc(fn.env[t].kinds[1])
+            self.features.add('tuple-destructure')
+        elif k == 'assert':
+            v = self.scalars(fn)
+            if not v:
+                return False
+            x = ch.choice(v)
+            out.append(f'{ind}assert {x} == {x} or fp.isnan({x})' if fn.env[x].kind in FLOATS else f'{ind}assert {x} == {x}')
+            self.features.add('assert')
+        elif k == 'callstmt':
+            hs = self.callable_helpers(fn, C, lambda h: True)
+            if not hs:
+                return False
+            h = ch.choice(hs)
+            t = self.call_text(fn, C, h, ed)
+            if t is None:
+                return False
+            if isinstance(h.ret, Sc):
+                v = fn.fresh('v')
+                fn.env[v] = Sc(h.ret.kind)
+            elif isinstance(h.ret, Li):
+                v = fn.fresh('xs')
+                # a returned list may be one of the arguments
+                ret_alias = None
+                if h.kind == 'returns-arg':
+                    for (pn, pt), a in zip(h.params, t[len(h.name) + 1:-1].split(', ')):
+                        if isinstance(pt, Li):
+                            ret_alias = a
+                self.bind(fn, v, Li(h.ret.elem, h.ret.lb, False), alias_of=ret_alias)
+            elif isinstance(h.ret, Bo):
+                v = fn.fresh('b')
+                fn.env[v] = Bo()
+            else:
+                return False
+            out.append(f'{ind}{v} = {t}')
+        elif k == 'alias-call':
+            return self.alias_call_scenario(fn, C, ind, out, in_with, in_loop)
+        elif k == 'return':
+            if fn.ret_shape is None:
+                return False
+            t = self.return_text(fn, C)
+            if t is None:
+                return False
+            out.append(f'{ind}return {t}')
+            if in_with:
+                self.features.add('early-return-inside-with')
+            if in_loop:
+                self.features.add('early-return-inside-loop')
+            return True
+        elif k == 'if':
+            out.append(f'{ind}if {self.boolean(fn, C, ed - 1)}:')
+            snap = self.snapshot(fn)
+            # a name introduced in both arms (hoisted declaration)
+            both = fn.fresh('w') if ch.bool(0.5) and C.kind not in ('int', 'real') else None
+            body1 = []
+            r1 = self.block(fn, C, ind + '    ', ch.int(1, 3), depth - 1, body1, in_loop, in_with)
+            if both and not r1:
+                t, _ = self.operand(fn, C, ed - 1)
+                u, _ = self.operand(fn, C, 0)
+                body1.append(f'{ind}    {both} = ({t} + {u})')
+            out += body1
+            env1 = dict(fn.env)
+            self.restore(fn, snap)
+            out.append(f'{ind}else:')
+            body2 = []
+            r2 = self.block(fn, C, ind + '    ', ch.int(1, 3), depth - 1, body2, in_loop, in_with)
+            if both and not r2:
+                t, _ = self.operand(fn, C, ed - 1)
+                u, _ = self.operand(fn, C, 0)
+                body2.append(f'{ind}    {both} = ({t} * {u})')
+            out += body2
+            env2 = dict(fn.env)
+            self.restore(fn, snap)
+            self.features.add('if-else')
+            if r1 and r2:
+                return True
+            if both and not r1 and not r2:
+                fn.env[both] = Sc(C.kind)
+                self.features.add('name-introduced-in-both-arms')
+            # list lengths: keep lower bounds valid (lists are never shortened here, nothing to do)
+        elif k == 'if1':
+            out.append(f'{ind}if {self.boolean(fn, C, ed - 1)}:')
+            snap = self.snapshot(fn)
+            self.block(fn, C, ind + '    ', ch.int(1, 2), depth - 1, out, in_loop, in_with)
+            self.restore(fn, snap)
+            self.features.add('if1')
+        elif k == 'for':
+            snap = self.snapshot(fn)
+            ls = self.lists(fn)
+            form = ch.weighted([(5, 'list'), (5, 'range'), (2, 'zip'), (2, 'enum')]) if ls else 'range'
+            x = fn.fresh('i')
+            if form == 'list':
+                l = ch.choice(ls)
+                out.append(f'{ind}for {x} in {l}:')
+                fn.env[x] = Sc(fn.env[l].elem)
+            elif form == 'range':
+                n = ch.int(0, 4)
+                out.append(f'{ind}for {x} in range({n}):')
+                fn.env[x] = Sc('u8' if n > 0 else 's64')
+                if n == 0:
+                    self.features.add('zero-trip-loop')
+            elif form == 'zip':
+                l = ch.choice(ls)
+                same = [m for m in ls if fn.env[m].exact and fn.env[l].exact and fn.env[m].lb == fn.env[l].lb]
+                l2 = ch.choice(same) if same else l
+                y = fn.fresh('i')
+                out.append(f'{ind}for {x}, {y} in zip({l}, {l2}):')
+                fn.env[x] = Sc(fn.env[l].elem)
+                fn.env[y] = Sc(fn.env[l2].elem)
+                self.features.add('zip')
+            else:
+                l = ch.choice(ls)
+                y = fn.fresh('i')
+                out.append(f'{ind}for {x}, {y} in enumerate({l}):')
+                fn.env[x] = Sc('u8' if fn.env[l].exact else 's64')
+                fn.env[y] = Sc(fn.env[l].elem)
+                self.features.add('enumerate')
+            fn.protected.add(x)
+            # loop-carried accumulators: only names that already exist may be reassigned (scoping rule)
+            self.block(fn, C, ind + '    ', ch.int(1, 3), depth - 1, out, True, in_with)
+            self.restore(fn, snap)
+            self.features.add('for')
+        elif k == 'while':
+            if not (C.is_float or C.kind in ('s16', 's32', 's64', 'u16', 'u32', 'u64')):
+                return False
+            c = fn.fresh('k')
+            n = ch.int(0, 3)
+            out.append(f'{ind}{c} = {n}')
+            fn.env[c] = Sc(C.kind)
+            fn.protected.add(c)
+            out.append(f'{ind}while {c} > 0:')
+            snap = self.snapshot(fn)
+            if not self.block(fn, C, ind + '    ', ch.int(1, 2), 0, out, True, in_with):
+                out.append(f'{ind}    {c} = {c} - 1')
+            self.restore(fn, snap)
+            fn.env[c] = Sc(C.kind)
+            self.features.add('while')
+        elif k == 'with':
+            C2 = self.some_ctx(C)
+            out.append(f'{ind}with {C2.text}:')
+            if in_with:
+                self.features.add('nested-with')
+            if in_loop:
+                self.features.add('with-inside-loop')
+            if C2.is_float and C.is_float and C2.kind == C.kind and C2.rm != C.rm:
+                self.features.add('mode-switch')
+            self.features.add('ctx:' + (C2.kind if not C2.is_float else C2.kind + '/' + C2.rm))
+            r = self.block(fn, C2, ind + '    ', ch.int(1, 3), depth - 1, out, in_loop, in_with + 1)
+            self.features.add('with')
+            if not r:
+                self.features.add('stmt-after-with')
+                # something mode-sensitive right after the block (a missing restore would show)
+                if C.is_float and ch.bool(0.6):
+                    v = fn.fresh('v')
+                    a, _ = self.operand(fn, C, 1)
+                    b, _ = self.operand(fn, C, 0)
+                    out.append(f'{ind}{v} = ({a} / {b})' if ch.bool(0.5) else f'{ind}{v} = ({a} * {b} + {a})')
+                    fn.env[v] = Sc(C.kind)
+            return r
+        return False
+
+
+    def alias_call_scenario(self, fn, C, ind, out, in_with, in_loop):
+        env, groups, obs, n_out, feats = dict(fn.env), dict(fn.alias_groups), list(fn.must_observe), len(out), set(self.features)
+        r = self._alias_call_scenario(fn, C, ind, out, in_with, in_loop)
+        if r is None:
+            # aborted: nothing was emitted, so nothing may stay bound
+            fn.env, fn.alias_groups, fn.must_observe = env, groups, obs
+            del out[n_out:]
+            self.features = feats
+            return False
+        return r
+
+    def _alias_call_scenario(self, fn, C, ind, out, in_with, in_loop):
+        """A list reachable through two names (or a name and a container slot) handed to a helper that may write it,
+        then read back through the *other* access path."""
+        ch = self.ch
+        hs = [h for h in self.helpers if h.params and isinstance(h.params[0][1], (Li, LL))]
+        h = ch.choice(hs)
+        pt = h.params[0][1]
+        # the call must run under a context of the kind the helper body was generated for
+        H = h.own_ctx or h.assumed
+        inner = ind
+        K = C
+        if h.own_ctx is None and C.kind != H.kind:
+            K = Ctx(H.kind, ch.choice(RMS) if H.is_float else None)
+            out.append(f'{ind}with {K.text}:')
+            inner = ind + '    '
+            self.features.add('with')
+            self.features.add('ctx:' + (K.kind if not K.is_float else K.kind + '/' + K.rm))
+        ek = pt.elem
+        lines = []
+        if isinstance(pt, Li):
+            need = h.minlen.get('p0', 1)
+            cands = self.lists(fn, lambda t: t.elem == ek and t.lb >= need)
+            if cands and ch.bool(0.6):
+                base = ch.choice(cands)
+            else:
+                if K.kind != ek:
+                    return None
+                base = fn.fresh('xs')
+                n = need + ch.int(0, 2)
+                elems = []
+                for _ in range(n):
+                    a, _k = self.operand(fn, K, 1)
+                    b, _k = self.operand(fn, K, 0)
+                    elems.append(f'({a} {ch.choice(["+", "*", "-"])} {b})' if K.kind != 's8' else f'fp.round({a})')
+                lines.append(f'{inner}{base} = [{", ".join(elems)}]')
+                self.bind(fn, base, Li(ek, n, True))
+            shape = ch.weighted([(5, 'name'), (4, 'rows'), (2, 'both')])
+            arg = base
+            readers = []
+            if shape in ('name', 'both'):
+                al = fn.fresh('xs')
+                lines.append(f'{inner}{al} = {base}')
+                self.bind(fn, al, Li(ek, fn.env[base].lb, fn.env[base].exact), alias_of=base)
+                arg = al if ch.bool(0.5) else base
+                readers.append(base if arg == al else al)
+                self.features.add('list-alias')
+            if shape in ('rows', 'both'):
+                xss = fn.fresh('xss')
+                n_rows = ch.int(1, 3)
+                lines.append(f'{inner}{xss} = [{", ".join([base] * n_rows)}]')
+                fn.env[xss] = LL(ek, n_rows, fn.env[base].lb)
+                g = fn.alias_groups.get(base)
+                if g is None:
+                    g = fn.next_group
+                    fn.next_group += 1
+                    fn.alias_groups[base] = g
+                fn.alias_groups[xss] = g
+                readers.append(xss)
+                self.features.add('nested-list')
+                if n_rows > 1:
+                    self.features.add('nested-list-shared-rows')
+            call = self.call_text_with(fn, K, h, arg)
+            if call is None:
+                return None
+            out += lines
+            v = fn.fresh('v') if isinstance(h.ret, Sc) else fn.fresh('xs')
+            out.append(f'{inner}{v} = {call}')
+            if isinstance(h.ret, Sc):
+                fn.env[v] = Sc(h.ret.kind)
+            else:
+                self.bind(fn, v, Li(h.ret.elem, h.ret.lb, False), alias_of=arg if h.kind == 'returns-arg' else None)
+                if h.kind == 'returns-arg' and ch.bool(0.6):
+                    # write through the returned handle, read through the original
+                    t, _k = self.operand(fn, K, 0) if K.kind == ek else (None, None)
+                    if t is not None:
+                        out.append(f'{inner}{v}[0] = ({t} + {t})')
+                        self.features.add('write-through-returned-list')
+            # read back through the other path, right away (and again in the final return)
+            for r in readers:
+                w = fn.fresh('v')
+                if isinstance(fn.env[r], LL):
+                    out.append(f'{inner}{w} = {r}[{ch.int(0, fn.env[r].lb - 1)}][0]')
+                else:
+                    out.append(f'{inner}{w} = {r}[0]')
+                fn.env[w] = Sc(ek)
+                if r not in fn.must_observe:
+                    fn.must_observe.append(r)
+            if 'p0' in h.mutates and readers:
+                self.features.add('callee-writes-aliased-list')
+            if 'p0' in h.mutates:
+                self.features.add('callee-writes-list')
+            if base not in fn.must_observe:
+                fn.must_observe.append(base)
+        else:
+            cands = self.vars_of(fn, lambda t: isinstance(t, LL) and t.elem == ek and t.lb >= pt.lb and t.inner_lb >= pt.inner_lb)
+            rows = self.lists(fn, lambda t: t.elem == ek and t.lb >= pt.inner_lb)
+            if not cands and not rows:
+                return None
+            if rows and (not cands or ch.bool(0.6)):
+                row = ch.choice(rows)
+                xss = fn.fresh('xss')
+                n_rows = max(pt.lb, ch.int(1, 3))
+                lines.append(f'{inner}{xss} = [{", ".join([row] * n_rows)}]')
+                fn.env[xss] = LL(ek, n_rows, fn.env[row].lb)
+                g = fn.alias_groups.get(row)
+                if g is None:
+                    g = fn.next_group
+                    fn.next_group += 1
+                    fn.alias_groups[row] = g
+                fn.alias_groups[xss] = g
+                readers = [row]
+                self.features.add('nested-list')
+                self.features.add('nested-list-shared-rows')
+            else:
+                xss = ch.choice(cands)
+                readers = []
+            call = self.call_text_with(fn, K, h, xss)
+            if call is None:
+                return None
+            out += lines
+            v = fn.fresh('v')
+            out.append(f'{inner}{v} = {call}')
+            fn.env[v] = Sc(h.ret.kind) if isinstance(h.ret, Sc) else Sc(ek)
+            for r in readers:
+                w = fn.fresh('v')
+                out.append(f'{inner}{w} = {r}[0]')
+                fn.env[w] = Sc(ek)
+                if r not in fn.must_observe:
+                    fn.must_observe.append(r)
+            if xss not in fn.must_observe:
+                fn.must_observe.append(xss)
+            if 'p0' in h.mutates:
+                self.features.add('callee-writes-list')
+                if readers:
+                    self.features.add('callee-writes-aliased-list')
+        self.features.add('helper-call')
+        self.features.add('helper-with-own-ctx' if h.own_ctx is not None else 'helper-inherits-ctx')
+        return False
+
+    def call_text_with(self, fn, C, h, first_arg):
+        """Call of h with a fixed first (list) argument; scalar arguments as in call_text."""
+        ch = self.ch
+        args = [first_arg]
+        for pn, pt in h.params[1:]:
+            if not isinstance(pt, Sc):
+                return None
+            cands = self.scalars(fn, lambda k: fits(k, pt.kind))
+            if cands and ch.bool(0.7):
+                args.append(ch.choice(cands))
+            else:
+                t, k = self.num(fn, C, 1)
+                if not fits(k, pt.kind):
+                    if C.kind == pt.kind:
+                        t = f'fp.round({t})'
+                    else:
+                        return None
+                args.append(t)
+        return f'{h.name}({", ".join(args)})'
+
+    # ------------------------------------------------------------------ returns
+    def pick_ret_shape(self, fn, is_main):
+        ch = self.ch
+        if is_main:
+            return ch.weighted([(10, 'big'), (4, 'scalar'), (4, 'list'), (2, 'pair'), (2, 'nested')])
+        return ch.weighted([(8, 'scalar'), (3, 'list'), (1, 'bool')])
+
+    def return_text(self, fn, C: Ctx):
+        """Text of a value of the function's return shape, from what is in scope (None if impossible)."""
+        ch = self.ch
+        shape = fn.ret_shape
+        sc = self.scalars(fn)
+        if shape == 'scalar':
+            # every return of one function must have a common storage: all are members of fn.ret_kind
+            cands = self.scalars(fn, lambda k: fits(k, fn.ret_kind))
+            if cands and ch.bool(0.8):
+                return ch.choice(cands)
+            if C.kind == fn.ret_kind:
+                a, _ = self.operand(fn, C, 1)
+                b, _ = self.operand(fn, C, 0)
+                return f'({a} + {b})'
+            return ch.choice(cands) if cands else None
+        if shape == 'bool':
+            bs = self.vars_of(fn, lambda t: isinstance(t, Bo))
+            return ch.choice(bs) if bs else None
+        if shape == 'list':
+            ls = self.lists(fn, lambda t: t.elem == fn.ret_elem) if getattr(fn, 'ret_elem', None) else self.lists(fn)
+            if not ls:
+                return None
+            l = ch.choice(ls)
+            fn.ret_elem = fn.env[l].elem
+            return l
+        if shape == 'nested':
+            lls = self.vars_of(fn, lambda t: isinstance(t, LL) and (getattr(fn, 'ret_elem', None) in (None, t.elem)))
+            if not lls:
+                return None
+            l = ch.choice(lls)
+            fn.ret_elem = fn.env[l].elem
+            return l
+        if shape == 'pair':
+            cands = self.scalars(fn, lambda k: fits(k, fn.ret_kind))
+            if not cands:
+                return None
+            return f'({ch.choice(cands)}, {ch.choice(cands)})'
+        # 'big': fixed layout chosen at the first return:  list of slot types
+        if getattr(fn, 'big_layout', None) is None:
+            return None
+        parts = []
+        for slot in fn.big_layout:
+            if slot[0] == 'S':
+                cands = self.scalars(fn, lambda k: fits(k, slot[1]))
+                if not cands:
+                    return None
+                parts.append(ch.choice(cands))
+            elif slot[0] == 'B':
+                bs = self.vars_of(fn, lambda t: isinstance(t, Bo))
+                parts.append(ch.choice(bs) if bs else 'True')
+            elif slot[0] == 'L':
+                ls = self.lists(fn, lambda t: t.elem == slot[1])
+                if not ls:
+                    return None
+                parts.append(ch.choice(ls))
+            elif slot[0] == 'LL':
+                ls = self.vars_of(fn, lambda t: isinstance(t, LL) and t.elem == slot[1])
+                if not ls:
+                    return None
+                parts.append(ch.choice(ls))
+        return '(' + ', '.join(parts) + (',' if len(parts) == 1 else '') + ')'
+
+    def final_return(self, fn, C: Ctx):
+        """The closing return: as many observables as the shape allows."""
+        ch = self.ch
+        shape = fn.ret_shape
+        if shape == 'big':
+            names = []
+            for n in fn.must_observe:
+                if n in fn.env and n not in names:
+                    names.append(n)
+            rest = [n for n in sorted(fn.env) if n not in names and not isinstance(fn.env[n], Tu)]
+            # newest first: they depend on the most
+            rest.sort(key=lambda n: -int(''.join(c for c in n if c.isdigit()) or 0))
+            for n in rest:
+                if len(names) >= 7:
+                    break
+                if ch.bool(0.75):
+                    names.append(n)
+            if not names:
+                names = [sorted(fn.env)[0]]
+            layout = []
+            for n in names:
+                t = fn.env[n]
+                layout.append(('S', t.kind) if isinstance(t, Sc) else ('B',) if isinstance(t, Bo) else (t.key()[0], t.elem))
+            if getattr(fn, 'big_layout', None) is None:
+                fn.big_layout = layout
+                return '(' + ', '.join(names) + (',' if len(names) == 1 else '') + ')'
+            t = self.return_text(fn, C)
+            return t
+        t = self.return_text(fn, C)
+        return t
+
+    # ------------------------------------------------------------------ functions
+    def gen_helper(self, idx):
+        ch = self.ch
+        name = f'h{idx}'
+        kind = ch.weighted([(4, 'scalar'), (6, 'writes-list'), (2, 'returns-arg'), (2, 'new-list'), (2, 'writes-nested')])
+        own = self.float_ctx() if ch.bool(0.4) else None
+        if own is None:
+            assumed = self.float_ctx()
+        else:
+            assumed = own
+        if own is None and ch.bool(0.15):
+            assumed = Ctx(ch.choice(['s16', 's32', 'u16']))
+        fn = Fn(name, False)
+        params = []
+        minlen = {}
+        mutates = set()
+        ek = assumed.kind
+        if kind == 'writes-nested':
+            params.append(('p0', LL(ek, ch.int(1, 2), ch.int(1, 2))))
+        elif kind != 'scalar':
+            n = ch.int(1, 3)
+            params.append(('p0', Li(ek, n, False)))
+            minlen['p0'] = n
+        nsc = ch.int(1, 2)
+        for i in range(nsc):
+            k = ch.choice(['f32', 'f64', 'f64']) if assumed.is_float else assumed.kind
+            params.append((f'p{len(params)}', Sc(k)))
+        for n, t in params:
+            fn.env[n] = t
+            if isinstance(t, (Li, LL)):
+                fn.alias_groups[n] = fn.next_group
+                fn.next_group += 1
+        body = []
+        C = assumed
+        if kind in ('writes-list', 'returns-arg'):
+            t, _ = self.operand(fn, C, 2)
+            if C.kind != ek:
+                # the stored value must be a member of the element format
+                cands = self.scalars(fn, lambda kk: fits(kk, ek))
+                t = ch.choice(cands) if cands else None
+            if t is not None:
+                body.append(f'    p0[{ch.int(0, minlen["p0"] - 1)}] = {t}')
+                mutates.add('p0')
+            if ch.bool(0.4) and C.kind == ek:
+                i = fn.fresh('i')
+                body.append(f'    for {i} in range({minlen["p0"]}):')
+                u, _ = self.operand(fn, C, 0)
+                body.append(f'        p0[{i}] = (p0[{i}] {ch.choice(["+", "*"])} {u})')
+                mutates.add('p0')
+        if kind == 'writes-nested':
+            t0 = params[0][1]
+            cands = self.scalars(fn, lambda kk: fits(kk, ek))
+            if C.kind == ek:
+                t, _ = self.operand(fn, C, 1)
+            else:
+                t = ch.choice(cands) if cands else None
+            if t is not None:
+                body.append(f'    p0[{ch.int(0, t0.lb - 1)}][{ch.int(0, t0.inner_lb - 1)}] = {t}')
+                mutates.add('p0')
+        fn.ret_shape = {'scalar': 'scalar', 'writes-list': 'scalar', 'returns-arg': 'list', 'new-list': 'list', 'writes-nested': 'scalar'}[kind]
+        fn.ret_kind = assumed.kind
+        for _ in range(ch.int(0, 2)):
+            self.stmt_simple(fn, C, '    ', body)
+        if kind == 'returns-arg':
+            body.append('    return p0')
+            ret = Li(ek, minlen['p0'], False)
+        elif kind == 'new-list':
+            v = 'e0'
+            fn.env[v] = Sc(ek)
+            b, kk = self.elem_body(fn, C, 1, v)
+            del fn.env[v]
+            body.append(f'    return [{b} for {v} in p0]')
+            ret = Li(kk, minlen['p0'], False)
+        else:
+            t, kk = self.num(fn, C, 2)
+            if kk not in FLOATS and C.is_float:
+                t, kk = f'({t} + {self.operand(fn, C, 0)[0]})', C.kind
+            body.append(f'    return {t}')
+            ret = Sc(kk)
+        ann = {Sc: 'fp.Real', Li: 'list[fp.Real]', LL: 'list[list[fp.Real]]'}
+        sig = ', '.join(f'{n}: {ann[type(t)]}' for n, t in params)
+        deco = '@fp.fpy' if own is None else f'@fp.fpy(ctx={own.text})'
+        self.lines += [deco, f'def {name}({sig}):'] + body + ['']
+        if own is not None:
+            self.features.add('helper-declares-ctx')
+        return Helper(name, params, ret, own, assumed, mutates, minlen, kind)
+
+    def stmt_simple(self, fn, C, ind, out):
+        ch = self.ch
+        v = fn.fresh('v')
+        t, kk = self.num(fn, C, 2)
+        out.append(f'{ind}{v} = {t}')
+        fn.env[v] = Sc(kk)
+
+    def gen_main(self):
+        ch = self.ch
+        fn = Fn('kern', True)
+        top = self.float_ctx()
+        declares = ch.bool(0.3)
+        params = []
+        n = ch.int(1, 3)
+        for i in range(n):
+            r = ch.int(0, 99)
+            if r < 50 or (self.p_lists == 0.0 and r < 90):
+                k = ch.weighted([(5, 'f32'), (7, 'f64'), (1, 's8'), (2, 's16'), (2, 's32'), (1, 'u8'), (1, 'u16'), (1, 's64'), (1, 'u32')])
+                params.append((f'a{i}', Sc(k)))
+            elif r < 88:
+                k = ch.choice(['f32', 'f64', 'f64'])
+                pinned = ch.bool(0.5)
+                lb = ch.int(1, 4) if pinned or ch.bool(0.8) else 0
+                params.append((f'a{i}', Li(k, lb, pinned)))
+            elif r < 95:
+                params.append((f'a{i}', LL(ch.choice(['f32', 'f64']), ch.int(1, 2), ch.int(1, 3))))
+            else:
+                params.append((f'a{i}', Bo()))
+        for nme, t in params:
+            fn.env[nme] = t
+            if isinstance(t, (Li, LL)):
+                fn.alias_groups[nme] = fn.next_group
+                fn.next_group += 1
+        fn.ret_shape = self.pick_ret_shape(fn, True)
+        fn.ret_kind = top.kind
+        body = []
+        returned = self.block(fn, top, '    ', ch.int(3, self.max_stmts), 3, body)
+        if not returned:
+            t = self.final_return(fn, top)
+            if t is None:
+                # fall back to the big shape when the chosen one is not available
+                if not self._has_return(body):
+                    fn.ret_shape = 'big'
+                    fn.big_layout = None
+                    t = self.final_return(fn, top)
+                else:
+                    t = None
+            if t is None:
+                return None
+            body.append(f'    return {t}')
+        ann = {Sc: 'fp.Real', Li: 'list[fp.Real]', LL: 'list[list[fp.Real]]', Bo: 'bool'}
+        sig = ', '.join(f'{n}: {ann[type(t)]}' for n, t in params)
+        deco = f'@fp.fpy(ctx={top.text})' if declares else '@fp.fpy'
+        self.lines += [deco, f'def kern({sig}):'] + body + ['']
+        if declares:
+            self.features.add('main-declares-ctx')
+        return fn, params, top, declares
+
+    @staticmethod
+    def _has_return(body):
+        return any(l.strip().startswith('return') for l in body)
+
+
+# ---------------------------------------------------------------------------
+# inputs
+
+def _f32(x):
+    return struct.unpack('<f', struct.pack('<f', x))[0]
+
+
+F32_ORD = [1.0, -1.0, 0.5, 1.5, 3.0, -2.5, 100.0, _f32(0.1), _f32(1 / 3), 7.0, 10.0, _f32(1e-3), 0.75, -3.25, 255.0, _f32(12345.678),
+           2.0, -7.0, _f32(1e10), 65536.0, 16777215.0, _f32(0.3)]
+F32_SPECIAL = [0.0, -0.0, float('inf'), float('-inf'), float('nan'), _f32(1e-45), _f32(1.17549435e-38), _f32(3.4028235e38), 16777216.0,
+               2147483648.0, _f32(2147483520.0), -2147483648.0, _f32(9.223372e18), _f32(-3.4028235e38), _f32(1e-40), _f32(4294967296.0),
+               _f32(1.0000001), 8388609.0, 128.0, -129.0, 32768.0, 65535.0]
+F64_ORD = F32_ORD + [0.1, 1 / 3, 1e-3, 12345.678, 1.0000000000000002, 0.3, 2.718281828459045, -0.7, 1e15, 123456789.0]
+F64_SPECIAL = F32_SPECIAL + [1e300, -1e300, 1e-320, 5e-324, 1.7976931348623157e308, 3.4028235677973366e38, 1e39, -1e39, 9007199254740992.0,
+                             9223372036854775808.0, 9.2e18, 2147483647.0, -2147483649.0, 4294967295.0, 65535.5, 1.00000005960464477539,
+                             16777217.0, 1e-46, 2147483647.5, 1.8446744073709552e19, -9223372036854775808.0, 4294967296.5, 1e22]
+
+
+def int_pool(kind):
+    lo, hi = RANGE[kind]
+    base = [0, 1, 2, 3, 5, 7, 10, 100, hi, hi - 1, hi // 2, hi // 3]
+    if lo < 0:
+        base += [-1, -2, -7, lo, lo + 1, lo // 2]
+    return [v for v in base if lo <= v <= hi]
+
+
+def gen_scalar(ch, kind, special_p):
+    if kind == 'f32':
+        return ch.choice(F32_SPECIAL) if ch.bool(special_p) else ch.choice(F32_ORD)
+    if kind == 'f64':
+        return ch.choice(F64_SPECIAL) if ch.bool(special_p) else ch.choice(F64_ORD)
+    return ch.choice(int_pool(kind))
+
+
+def gen_inputs(ch, params, n):
+    out = []
+    for j in range(n):
+        special_p = [0.0, 0.1, 0.3, 0.6][j % 4]
+        args = []
+        for _, t in params:
+            if isinstance(t, Sc):
+                args.append(gen_scalar(ch, t.kind, special_p))
+            elif isinstance(t, Bo):
+                args.append(ch.bool())
+            elif isinstance(t, Li):
+                k = t.lb if t.exact else t.lb + ch.int(0, 3)
+                args.append([gen_scalar(ch, t.elem, special_p) for _ in range(k)])
+            elif isinstance(t, LL):
+                rows = t.lb + ch.int(0, 1)
+                cols = t.inner_lb + ch.int(0, 2)
+                args.append([[gen_scalar(ch, t.elem, special_p) for _ in range(cols)] for _ in range(rows)])
+        out.append(args)
+    return out
+
+
+def type_desc(t):
+    if isinstance(t, Sc):
+        return t.kind
+    if isinstance(t, Bo):
+        return 'bool'
+    if isinstance(t, Li):
+        return {'L': t.elem, 'n': t.lb if t.exact else None}
+    if isinstance(t, LL):
+        return {'L': {'L': t.elem, 'n': None}, 'n': None}
+    raise ValueError(t)
+
+
+def enc_val(a):
+    if isinstance(a, list):
+        return {'L': [enc_val(x) for x in a]}
+    if isinstance(a, bool):
+        return {'b': a}
+    if isinstance(a, float):
+        return {'f': a.hex() if a == a and a not in (float('inf'), float('-inf')) else repr(a)}
+    return {'i': a}
+
+
+N_INPUTS = 6
+
+
+def gen_case(ch: Chooser, shard=0, n_inputs=N_INPUTS):
+    for attempt in range(20):
+        g = Gen(ch, shard)
+        nh = ch.weighted([(4, 0), (4, 1), (2, 2)])
+        for i in range(nh):
+            g.helpers.append(g.gen_helper(i))
+        m = g.gen_main()
+        if m is None:
+            continue
+        fn, params, top, declares = m
+        inputs = gen_inputs(ch, params, n_inputs)
+        extra = []
+        if g.helpers and 'helper-call' in g.features and ch.bool(0.3):
+            h = ch.choice(g.helpers)
+            hc = h.own_ctx or h.assumed
+            extra.append({'name': h.name, 'ctx': hc.text, 'arg_types': [type_desc(t) for _, t in h.params]})
+        return {
+            'src': '\n'.join(g.lines) + '\n',
+            'main': 'kern',
+            'ctx': top.text,
+            'arg_types': [type_desc(t) for _, t in params],
+            'entry_rm': top.rm,
+            'inputs': [[enc_val(a) for a in args] for args in inputs],
+            'features': sorted(g.features | ({'helper-also-public'} if extra else set())),
+            'extra_public': extra,
+        }
+    raise RuntimeError('generator failed to produce a program')
